@@ -1,5 +1,5 @@
 (* Proofs for C16 about the model in Model/Addr.v *)
-From GV Require Import Lib.Trace Model.Arith Model.Addr Proofs.ArithProofs.
+From GV Require Import Lib.Trace Model.Arith Model.Addr Spec.AddrGrammar Proofs.ArithProofs.
 From Coq Require Import Lia ZArith Bool List.
 Import ListNotations.
 Open Scope Z_scope.
@@ -175,9 +175,6 @@ Proof.
   - cbn [unesc_do]. destruct (Z.eqb_spec c 37); [lia|]. rewrite IH. reflexivity.
 Qed.
 
-(* a byte that url.unescape accepts literally in host / zone mode, or '%' *)
-Definition host_byte_ok (c : Z) : bool :=
-  (c =? 37) || (128 <=? c) || negb (should_escape_host c).
 
 Lemma unesc_ok_escape_host m s : is_hostmode m = true ->
   forallb host_byte_ok s = true -> unesc_ok m (escape_pct s) = true.
@@ -292,23 +289,7 @@ Qed.
 (* ------------------------------------------------------------------ *)
 (* parse_host on a pre-escaped, acceptable host *)
 
-(* host[:port] accepted literally by url.parseHost: acceptable bytes, and the
-   port position (after the last ']' of a bracketed host, after the last ':'
-   otherwise) holds an optional ':' digits *)
-Definition host_ok0 (h : bytes) : bool :=
-  forallb host_byte_ok h &&
-  if has_prefix1 91 h then
-    match split_last 93 h with
-    | Some (_, cp) => valid_optional_port cp
-    | None => false
-    end
-  else
-    match split_last 58 h with
-    | Some (_, after) => forallb is_digit after
-    | None => true
-    end.
 
-Definition host_ok (h : bytes) : bool := negb (is_nil h) && host_ok0 h.
 
 Lemma has_prefix1_escape c s : c <> 37 -> has_prefix1 c (escape_pct s) = has_prefix1 c s.
 Proof.
@@ -366,14 +347,7 @@ Qed.
 (* ------------------------------------------------------------------ *)
 (* url_parse on  scheme "://" host path *)
 
-Definition scheme_char (c : Z) : bool := is_alnum c || (c =? 43) || (c =? 45) || (c =? 46).
 
-(* [a-zA-Z][a-zA-Z0-9+.-]* *)
-Definition scheme_ok (s : bytes) : bool :=
-  match s with
-  | [] => false
-  | c :: t => is_alpha c && forallb scheme_char t
-  end.
 
 Lemma scheme_scan_tail t rest : forallb scheme_char t = true ->
   scheme_scan false (t ++ 58 :: rest) = Some (Some (t, rest)).
@@ -408,10 +382,6 @@ Proof.
   apply andb_true_iff. split; [|assumption]. unfold scheme_char, is_alnum. rewrite H. reflexivity.
 Qed.
 
-(* path part: empty or rooted, without control bytes, '?' and '#' *)
-Definition path_byte_ok (c : Z) : bool := negb (is_ctl c) && negb (c =? 35) && negb (c =? 63).
-Definition path_ok (p : bytes) : bool :=
-  (is_nil p || has_prefix1 47 p) && forallb path_byte_ok p.
 
 Lemma existsb_false_forall {A} (f : A -> bool) l :
   (forall x, In x l -> f x = false) -> existsb f l = false.
@@ -633,7 +603,6 @@ Qed.
 (* ------------------------------------------------------------------ *)
 (* parse_total_classified *)
 
-Definition seven_schemes : list bytes := s_unix :: inet_schemes.
 
 Lemma is_inet_scheme_In s : is_inet_scheme s = true <-> In s inet_schemes.
 Proof.
@@ -644,6 +613,49 @@ Qed.
 
 Lemma unix_not_inet : ~ In s_unix inet_schemes.
 Proof. cbn. intuition discriminate. Qed.
+
+Lemma nil_not_inet : ~ In [] inet_schemes.
+Proof. cbn. intuition discriminate. Qed.
+
+Lemma dispatch_cases u :
+  (u_scheme u = [] /\ dispatch u = PErr EInvalid) \/
+  (In (u_scheme u) inet_schemes /\ (u_host u = [] \/ u_path u <> []) /\ dispatch u = PErr EInvalid) \/
+  (In (u_scheme u) inet_schemes /\ u_host u <> [] /\ u_path u = [] /\
+     dispatch u = POk (u_scheme u) (u_host u)) \/
+  (u_scheme u = s_unix /\ u_host u = [] /\ u_path u = [] /\ dispatch u = PErr EInvalid) \/
+  (u_scheme u = s_unix /\ ~ (u_host u = [] /\ u_path u = []) /\
+     path_join (u_host u) (u_path u) <> [] /\
+     dispatch u = POk (u_scheme u) (path_join (u_host u) (u_path u))) \/
+  (u_scheme u <> [] /\ ~ In (u_scheme u) seven_schemes /\ dispatch u = PErr EUnsupported).
+Proof.
+  unfold dispatch, seven_schemes.
+  destruct (is_nil (u_scheme u)) eqn:En.
+  { apply is_nil_true in En. left. tauto. }
+  apply is_nil_false in En. right.
+  destruct (is_inet_scheme (u_scheme u)) eqn:Ei.
+  { apply is_inet_scheme_In in Ei.
+    destruct (is_nil (u_host u)) eqn:Eh; cbn [orb].
+    - apply is_nil_true in Eh. left. tauto.
+    - apply is_nil_false in Eh. destruct (is_nil (u_path u)) eqn:Ep; cbn [negb].
+      + apply is_nil_true in Ep. right. left. tauto.
+      + apply is_nil_false in Ep. left. tauto. }
+  assert (Hni : ~ In (u_scheme u) inet_schemes).
+  { intros H. apply is_inet_scheme_In in H. congruence. }
+  right. right.
+  destruct (bytes_eqb (u_scheme u) s_unix) eqn:Eu.
+  { apply bytes_eqb_eq in Eu.
+    destruct (is_nil (path_join (u_host u) (u_path u))) eqn:Ej.
+    - apply is_nil_true in Ej. apply path_join_nil in Ej. left. tauto.
+    - apply is_nil_false in Ej. right. left. repeat split; try assumption.
+      intros H. apply Ej. apply path_join_nil. assumption. }
+  right. right. repeat split; try assumption.
+  intros [H|H]; [|tauto]. symmetry in H. apply bytes_eqb_eq in H. congruence.
+Qed.
+
+Ltac dsolve := try congruence; try discriminate;
+  try (exfalso; match goal with
+       | H : ?x = _, H2 : In ?x inet_schemes |- _ => rewrite H in H2; tauto
+       end).
 
 Theorem dispatch_classified u :
   dispatch u <> PPanic /\
@@ -658,52 +670,16 @@ Theorem dispatch_classified u :
      (In s inet_schemes -> ep = u_host u /\ u_path u = []) /\
      (s = s_unix -> ep = path_join (u_host u) (u_path u))).
 Proof.
-  unfold dispatch, seven_schemes.
-  destruct (is_nil (u_scheme u)) eqn:En.
-  { apply is_nil_true in En. rewrite En. repeat split; try discriminate; try tauto.
-    intros [H _]. congruence. }
-  apply is_nil_false in En.
-  destruct (is_inet_scheme (u_scheme u)) eqn:Ei.
-  { apply is_inet_scheme_In in Ei.
-    assert (Hnu : u_scheme u <> s_unix) by (intros E; rewrite E in Ei; exact (unix_not_inet Ei)).
-    destruct (is_nil (u_host u)) eqn:Eh; cbn [orb].
-    - apply is_nil_true in Eh. repeat split; try discriminate; try tauto.
-      intros [_ H]. exfalso. apply H. right. assumption.
-    - apply is_nil_false in Eh. destruct (is_nil (u_path u)) eqn:Ep; cbn [negb].
-      + apply is_nil_true in Ep. repeat split; try discriminate.
-        * intros [H|[[_ [H|H]]|[H _]]]; congruence.
-        * intros [_ H]. exfalso. apply H. right. assumption.
-        * inversion H; reflexivity.
-        * inversion H; subst. right. assumption.
-        * inversion H; subst. assumption.
-        * inversion H; reflexivity.
-        * assumption.
-        * intros E. inversion H; subst. congruence.
-      + apply is_nil_false in Ep. repeat split; try discriminate; try tauto.
-        intros [_ H]. exfalso. apply H. right. assumption. }
-  assert (Hni : ~ In (u_scheme u) inet_schemes).
-  { intros H. apply is_inet_scheme_In in H. congruence. }
-  destruct (bytes_eqb (u_scheme u) s_unix) eqn:Eu.
-  { apply bytes_eqb_eq in Eu.
-    destruct (is_nil (path_join (u_host u) (u_path u))) eqn:Ej.
-    - apply is_nil_true in Ej. pose proof Ej as Ej2. apply path_join_nil in Ej2.
-      repeat split; try discriminate; try tauto.
-      intros [_ H]. apply H. left. congruence.
-    - apply is_nil_false in Ej.
-      repeat split; try discriminate.
-      + intros [H|[[H _]|[_ H]]]; try tauto. apply Ej. apply path_join_nil. assumption.
-      + intros [_ H]. exfalso. apply H. left. congruence.
-      + inversion H; reflexivity.
-      + inversion H; subst. left. congruence.
-      + inversion H; subst. assumption.
-      + inversion H; subst. intros Hi. tauto.
-      + inversion H; subst. intros Hi. tauto.
-      + inversion H; reflexivity. }
-  assert (Hnu : u_scheme u <> s_unix).
-  { intros E. apply bytes_eqb_eq in E. congruence. }
-  repeat split; try discriminate; try tauto.
-  - intros [H|[[H _]|[H _]]]; congruence.
-  - intros [H|H]; [congruence|tauto].
+  pose proof unix_not_inet as Hu. pose proof nil_not_inet as Hn.
+  assert (Hun : s_unix <> []) by discriminate.
+  destruct (dispatch_cases u) as [(Hs & ->)|[(Hs & Hc & ->)|[(Hs & Hh & Hp & ->)|[(Hs & Hh & Hp & ->)|[(Hs & Hc & Hj & ->)|(Hs & Hc & ->)]]]]];
+    unfold seven_schemes in *; cbn [In] in *;
+    (split; [discriminate|]);
+    (split; [try (rewrite Hs in * ); intuition dsolve|]);
+    (split; [try (rewrite Hs in * ); intuition dsolve|]);
+    (split; [discriminate|]);
+    intros s ep E; try discriminate E; inversion E; subst;
+    try (rewrite Hs in * ); intuition dsolve.
 Qed.
 
 Theorem parse_total_classified a :
@@ -726,8 +702,8 @@ Proof.
   pose proof (url_parse_no_panic (escape_pct a)) as Hnp.
   destruct (url_parse (escape_pct a)) as [u| |] eqn:E; [| |congruence].
   - pose proof (dispatch_classified u) as (H1 & H2 & H3 & H4 & H5).
-    split; [assumption|]. right. exists u. repeat split; try assumption; try apply H2; try apply H3.
-    all: try (intros; eapply H5; eassumption).
+    split; [assumption|]. right. exists u. split; [reflexivity|].
+    split; [exact H2|]. split; [exact H3|]. split; [exact H4|exact H5].
   - split; [discriminate|]. left. split; reflexivity.
 Qed.
 
@@ -741,4 +717,470 @@ Proof.
     + right. exists s, ep. split; [reflexivity|]. destruct (H s ep eq_refl) as (_ & H2 & H3 & _). tauto.
     + left. eexists; reflexivity.
     + congruence.
+Qed.
+
+(* ------------------------------------------------------------------ *)
+(* schemes written in any letter case *)
+
+
+Lemma scheme_char_lower c : scheme_char (lowerc c) = true -> scheme_char c = true.
+Proof.
+  unfold lowerc. destruct (is_upper c) eqn:E; [|auto]. intros _.
+  unfold scheme_char, is_alnum, is_alpha, is_lower, is_upper, is_digit in *. lia.
+Qed.
+
+Lemma is_alpha_lower c : is_alpha (lowerc c) = true -> is_alpha c = true.
+Proof.
+  unfold lowerc. destruct (is_upper c) eqn:E; [|auto]. intros _.
+  unfold is_alpha, is_lower, is_upper in *. lia.
+Qed.
+
+Lemma scheme_ok_lower s : scheme_ok (lower s) = true -> scheme_ok s = true.
+Proof.
+  destruct s as [|c t]; [discriminate|]. cbn [lower map scheme_ok]. intros H.
+  apply andb_true_iff in H. destruct H as [Hc Ht]. apply andb_true_iff. split.
+  - apply is_alpha_lower. exact Hc.
+  - clear Hc. induction t as [|d t IH]; [reflexivity|]. cbn [map forallb] in *.
+    apply andb_true_iff in Ht. destruct Ht as [Hd Ht]. apply andb_true_iff. split.
+    + apply scheme_char_lower. exact Hd.
+    + apply IH. exact Ht.
+Qed.
+
+Lemma seven_scheme_ok s : In (lower s) seven_schemes -> scheme_ok s = true.
+Proof.
+  intros H. apply scheme_ok_lower. cbn in H.
+  repeat (destruct H as [H|H]; [rewrite <- H; reflexivity|]). destruct H.
+Qed.
+
+(* ------------------------------------------------------------------ *)
+(* the "endpoint exactly as written" theorems *)
+
+Lemma parse_constructed s h p :
+  scheme_ok s = true -> host_ok0 h = true -> path_ok p = true ->
+  parse_proto_addr (s ++ [58; 47; 47] ++ h ++ p) = dispatch (mkurl (lower s) h p).
+Proof.
+  intros Hs Hh Hp. unfold parse_proto_addr. rewrite url_parse_constructed by assumption. reflexivity.
+Qed.
+
+Theorem parse_exact_inet s h :
+  In (lower s) inet_schemes -> host_ok h = true ->
+  parse_proto_addr (s ++ [58; 47; 47] ++ h) = POk (lower s) h.
+Proof.
+  intros Hs Hh. unfold host_ok in Hh. apply andb_true_iff in Hh. destruct Hh as [Hne Hh].
+  apply negb_true_iff in Hne.
+  rewrite <- (app_nil_r h) at 1.
+  rewrite parse_constructed; try assumption; try reflexivity.
+  2:{ apply seven_scheme_ok. right. assumption. }
+  unfold dispatch. cbn [u_scheme u_host u_path].
+  assert (Hl : is_nil (lower s) = false).
+  { apply is_nil_false. intros E. rewrite E in Hs. exact (nil_not_inet Hs). }
+  rewrite Hl. apply is_inet_scheme_In in Hs. rewrite Hs, Hne. reflexivity.
+Qed.
+
+Theorem parse_inet_invalid s h p :
+  In (lower s) inet_schemes -> host_ok0 h = true -> path_ok p = true ->
+  h = [] \/ p <> [] ->
+  parse_proto_addr (s ++ [58; 47; 47] ++ h ++ p) = PErr EInvalid.
+Proof.
+  intros Hs Hh Hp Hc.
+  rewrite parse_constructed; try assumption.
+  2:{ apply seven_scheme_ok. right. assumption. }
+  unfold dispatch. cbn [u_scheme u_host u_path].
+  assert (Hl : is_nil (lower s) = false).
+  { apply is_nil_false. intros E. rewrite E in Hs. exact (nil_not_inet Hs). }
+  rewrite Hl. apply is_inet_scheme_In in Hs. rewrite Hs.
+  destruct Hc as [->|Hc]; [reflexivity|].
+  apply is_nil_false in Hc. rewrite Hc. rewrite orb_true_r. reflexivity.
+Qed.
+
+Theorem parse_unix_clean s h p :
+  lower s = s_unix -> host_ok0 h = true -> path_ok p = true ->
+  parse_proto_addr (s ++ [58; 47; 47] ++ h ++ p) =
+  if is_nil h && is_nil p then PErr EInvalid else POk s_unix (path_join h p).
+Proof.
+  intros Hs Hh Hp.
+  rewrite parse_constructed; try assumption.
+  2:{ apply seven_scheme_ok. left. symmetry. assumption. }
+  unfold dispatch. cbn [u_scheme u_host u_path]. rewrite Hs.
+  change (is_nil s_unix) with false. change (is_inet_scheme s_unix) with false.
+  rewrite bytes_eqb_refl.
+  destruct (is_nil (path_join h p)) eqn:E.
+  - apply is_nil_true in E. apply path_join_nil in E. destruct E as [-> ->]. reflexivity.
+  - destruct (is_nil h && is_nil p) eqn:E2; [|reflexivity].
+    apply andb_true_iff in E2. destruct E2 as [E2 E3].
+    apply is_nil_true in E2, E3. subst. discriminate.
+Qed.
+
+Theorem parse_unsupported s h p :
+  scheme_ok s = true -> ~ In (lower s) seven_schemes -> host_ok0 h = true -> path_ok p = true ->
+  parse_proto_addr (s ++ [58; 47; 47] ++ h ++ p) = PErr EUnsupported.
+Proof.
+  intros Hs Hn Hh Hp.
+  rewrite parse_constructed by assumption.
+  pose proof (dispatch_classified (mkurl (lower s) h p)) as (_ & _ & H3 & _).
+  apply H3. cbn [u_scheme]. split; [|assumption].
+  rewrite lower_nil. destruct s; [discriminate|discriminate].
+Qed.
+
+(* ------------------------------------------------------------------ *)
+(* an address without ':' has no scheme: the result is an error that is not
+   "unsupported protocol" *)
+
+Lemma scheme_scan_no_colon s : ~ In 58 s -> forall f, scheme_scan f s = Some None.
+Proof.
+  induction s as [|c t IH]; intros H f; [reflexivity|].
+  cbn [scheme_scan].
+  assert (Ht : ~ In 58 t) by (intros Hin; apply H; right; assumption).
+  rewrite (IH Ht).
+  destruct (is_alpha c); [reflexivity|].
+  destruct (is_digit c || (c =? 43) || (c =? 45) || (c =? 46)); [destruct f; reflexivity|].
+  destruct (Z.eqb_spec c 58) as [->|]; [exfalso; apply H; left; reflexivity|reflexivity].
+Qed.
+
+Lemma cut_before_incl sep s : forall c, In c (fst (fst (cut sep s))) -> In c s.
+Proof.
+  induction s as [|x t IH]; intros c H; cbn in *; [assumption|].
+  destruct (x =? sep); [destruct H|].
+  destruct (cut sep t) as [[b a] f]. cbn in *. destruct H as [H|H]; [left; assumption|right; apply IH; assumption].
+Qed.
+
+Lemma url_parse_nofrag_no_colon raw : ~ In 58 raw ->
+  match url_parse_nofrag raw with ROk u => u_scheme u = [] | _ => True end.
+Proof.
+  intros H. unfold url_parse_nofrag.
+  destruct (existsb is_ctl raw); [exact I|].
+  destruct (bytes_eqb raw [42]); [reflexivity|].
+  rewrite scheme_scan_no_colon by assumption. cbv zeta. cbn [lower map is_nil negb].
+  rewrite andb_false_r.
+  match goal with |- context [negb (has_prefix1 47 ?r)] => set (rest1 := r) end.
+  destruct (negb (has_prefix1 47 rest1) && contains 58 (fst (fst (cut 47 rest1)))); [exact I|].
+  assert (Hfin : forall host rest,
+            match rbind (unescape EncPath rest) (fun p => ROk (mkurl [] host p)) with
+            | ROk u => u_scheme u = [] | _ => True end).
+  { intros host rest. destruct (unescape EncPath rest); cbn; auto. }
+  destruct rest1 as [|s1 [|s2 after]]; try apply Hfin.
+  match goal with |- context [if ?b then _ else _] => destruct b end; [|apply Hfin].
+  destruct (cut 47 after) as [[authority tail] found].
+  destruct (parse_authority authority); cbn [rbind]; auto; apply Hfin.
+Qed.
+
+Theorem parse_no_colon a : ~ In 58 a ->
+  parse_proto_addr a = PErr EInvalid \/ parse_proto_addr a = PErr EUrl.
+Proof.
+  intros H. unfold parse_proto_addr.
+  pose proof (url_parse_no_panic (escape_pct a)) as Hnp.
+  unfold url_parse in *.
+  assert (He : ~ In 58 (escape_pct a)) by (rewrite escape_pct_in by lia; assumption).
+  pose proof (cut_before_incl 35 (escape_pct a)) as Hinc.
+  destruct (cut 35 (escape_pct a)) as [[u frag] f]. cbn [fst] in Hinc.
+  assert (Hu : ~ In 58 u) by (intros Hin; apply He; apply Hinc; assumption).
+  pose proof (url_parse_nofrag_no_colon u Hu) as Hs.
+  destruct (url_parse_nofrag u) as [url| |]; cbn [rbind] in *.
+  - destruct (is_nil frag).
+    + left. unfold dispatch. rewrite Hs. reflexivity.
+    + destruct (unescape EncFragment frag); cbn [rbind] in *.
+      * left. unfold dispatch. rewrite Hs. reflexivity.
+      * right. reflexivity.
+      * congruence.
+  - right. reflexivity.
+  - congruence.
+Qed.
+
+(* ------------------------------------------------------------------ *)
+(* the grammar of the statement:
+     host = reg-name | IPv4address | "[" IPv6address [ "%" zone ] "]"
+     endpoint = host [ ":" *DIGIT ]
+   is inside host_ok *)
+
+
+
+Lemma host_byte_ok_alt c :
+  host_byte_ok c = (c =? 37) || (128 <=? c) ||
+    (is_alnum c || mem c [33; 36; 38; 39; 40; 41; 42; 43; 44; 59; 61; 58; 91; 93; 60; 62; 34]
+     || mem c [45; 95; 46; 126]).
+Proof.
+  unfold host_byte_ok, should_escape_host.
+  destruct (is_alnum c); destruct (mem c [33; 36; 38; 39; 40; 41; 42; 43; 44; 59; 61; 58; 91; 93; 60; 62; 34]);
+    destruct (mem c [45; 95; 46; 126]); reflexivity.
+Qed.
+
+Ltac byteclass :=
+  unfold reg_name_char, ipv6_char, zone_char, ishex, is_alnum, is_alpha, is_lower, is_upper,
+    is_digit, mem, existsb in *.
+
+Lemma reg_name_char_ok c : reg_name_char c = true -> host_byte_ok c = true /\ c <> 91 /\ c <> 58.
+Proof. rewrite host_byte_ok_alt. byteclass. lia. Qed.
+
+Lemma ipv6_char_ok c : ipv6_char c = true -> host_byte_ok c = true /\ c <> 93 /\ c <> 37.
+Proof. rewrite host_byte_ok_alt. byteclass. lia. Qed.
+
+Lemma zone_char_ok c : zone_char c = true -> host_byte_ok c = true /\ c <> 93.
+Proof. rewrite host_byte_ok_alt. byteclass. lia. Qed.
+
+Lemma digit_ok c : is_digit c = true -> host_byte_ok c = true /\ c <> 58 /\ c <> 93.
+Proof. rewrite host_byte_ok_alt. byteclass. lia. Qed.
+
+Lemma forallb_impl {A} (f g : A -> bool) l :
+  (forall x, f x = true -> g x = true) -> forallb f l = true -> forallb g l = true.
+Proof.
+  intros H. induction l as [|x t IH]; [reflexivity|]. cbn. intros H2.
+  apply andb_true_iff in H2. destruct H2 as [Hx Ht]. rewrite (H x Hx), (IH Ht). reflexivity.
+Qed.
+
+Lemma forallb_notin {A} (f : A -> bool) l c : forallb f l = true -> f c = false -> ~ In c l.
+Proof. intros H Hc Hin. rewrite forallb_forall in H. apply H in Hin. congruence. Qed.
+
+Lemma split_last_app sep b a : ~ In sep a -> split_last sep (b ++ sep :: a) = Some (b, a).
+Proof.
+  intros H. induction b as [|c t IH]; cbn [app split_last].
+  - apply split_last_none in H. rewrite H. rewrite Z.eqb_refl. reflexivity.
+  - rewrite IH. reflexivity.
+Qed.
+
+Lemma cut_not_found sep s p q : cut sep s = (p, q, false) -> p = s /\ ~ In sep s.
+Proof.
+  revert p q. induction s as [|c t IH]; intros p q H; cbn in H.
+  - inversion H. split; [reflexivity|intros []].
+  - destruct (Z.eqb_spec c sep); [discriminate|].
+    destruct (cut sep t) as [[b a] f] eqn:E. inversion H; subst.
+    destruct (IH b q eq_refl) as [-> Hn]. split; [reflexivity|]. intros [Hc|Hc]; [congruence|tauto].
+Qed.
+
+Lemma cut_found_notin sep s p q : cut sep s = (p, q, true) -> ~ In sep p.
+Proof.
+  revert p q. induction s as [|c t IH]; intros p q H; cbn in H; [discriminate|].
+  destruct (Z.eqb_spec c sep).
+  - inversion H. intros [].
+  - destruct (cut sep t) as [[b a] f] eqn:E. inversion H; subst.
+    intros [Hc|Hc]; [congruence|]. eapply IH; [reflexivity|exact Hc].
+Qed.
+
+Lemma valid_port_bytes cp : valid_optional_port cp = true ->
+  forallb host_byte_ok cp = true /\ ~ In 93 cp.
+Proof.
+  destruct cp as [|c t]; [split; [reflexivity|intros []]|].
+  cbn [valid_optional_port]. intros H. apply andb_true_iff in H. destruct H as [Hc Ht].
+  apply Z.eqb_eq in Hc. subst c. split.
+  - cbn [forallb]. apply andb_true_iff. split; [reflexivity|].
+    eapply forallb_impl; [|exact Ht]. intros x Hx. apply digit_ok in Hx. tauto.
+  - intros [Hc|Hc]; [lia|]. rewrite forallb_forall in Ht. apply Ht in Hc. apply digit_ok in Hc. lia.
+Qed.
+
+Theorem grammar_host_ok h : grammar_hostb h = true -> host_ok h = true.
+Proof.
+  destruct h as [|c t]; [discriminate|]. unfold grammar_hostb.
+  destruct (Z.eqb_spec c 91) as [->|Hc].
+  - destruct (split_last 93 t) as [[inner cp]|] eqn:E; [|discriminate].
+    intros H. apply andb_true_iff in H. destruct H as [Hcp H].
+    pose proof (split_last_some _ _ _ _ E) as Et.
+    destruct (valid_port_bytes cp Hcp) as [Hcpb Hcp93].
+    unfold host_ok, host_ok0. cbn [is_nil negb andb has_prefix1]. rewrite Z.eqb_refl.
+    cbn [split_last]. rewrite E. rewrite Hcp. rewrite andb_true_r.
+    subst t. cbn [forallb]. change (host_byte_ok 91) with true. cbn [andb].
+    rewrite forallb_app. cbn [forallb]. change (host_byte_ok 93) with true. rewrite Hcpb.
+    cbn [andb]. rewrite andb_true_r.
+    destruct (cut 37 inner) as [[lit z] found] eqn:Ec.
+    apply andb_true_iff in H. destruct H as [H Hz]. apply andb_true_iff in H. destruct H as [_ Hlit].
+    assert (Hl : forallb host_byte_ok lit = true).
+    { eapply forallb_impl; [|exact Hlit]. intros x Hx. apply ipv6_char_ok in Hx. tauto. }
+    destruct found.
+    + apply cut_some in Ec. subst inner. rewrite forallb_app. rewrite Hl. cbn [andb forallb].
+      change (host_byte_ok 37) with true. cbn [andb].
+      apply andb_true_iff in Hz. destruct Hz as [_ Hz].
+      eapply forallb_impl; [|exact Hz]. intros x Hx. apply zone_char_ok in Hx. tauto.
+    + apply cut_not_found in Ec. destruct Ec as [<- _]. exact Hl.
+  - destruct (cut 58 (c :: t)) as [[name port] found] eqn:Ec.
+    intros H. apply andb_true_iff in H. destruct H as [H Hport].
+    apply andb_true_iff in H. destruct H as [Hne Hname].
+    unfold host_ok, host_ok0. cbn [is_nil negb andb has_prefix1].
+    destruct (Z.eqb_spec c 91); [lia|].
+    assert (Hnb : forallb host_byte_ok name = true).
+    { eapply forallb_impl; [|exact Hname]. intros x Hx. apply reg_name_char_ok in Hx. tauto. }
+    assert (Hpb : forallb host_byte_ok port = true).
+    { eapply forallb_impl; [|exact Hport]. intros x Hx. apply digit_ok in Hx. tauto. }
+    destruct found.
+    + pose proof (cut_some _ _ _ _ Ec) as Eh. rewrite Eh.
+      rewrite split_last_app.
+      2:{ eapply forallb_notin; [exact Hport|reflexivity]. }
+      rewrite Hport. rewrite andb_true_r. rewrite forallb_app. rewrite Hnb. cbn [forallb andb].
+      change (host_byte_ok 58) with true. exact Hpb.
+    + apply cut_not_found in Ec. destruct Ec as [-> Hn58].
+      apply split_last_none in Hn58. rewrite Hn58. rewrite andb_true_r. exact Hnb.
+Qed.
+
+Corollary parse_exact_inet_grammar s h :
+  In (lower s) inet_schemes -> grammar_hostb h = true ->
+  parse_proto_addr (s ++ [58; 47; 47] ++ h) = POk (lower s) h.
+Proof. intros Hs Hh. apply parse_exact_inet; [assumption|apply grammar_host_ok; assumption]. Qed.
+
+(* ------------------------------------------------------------------ *)
+(* option normalisation *)
+
+
+Theorem cap_normalised_partial req : int64 req -> req <= 4611686018427387904 ->
+  exists r, norm_cap max_stream_buffer_cap req = Ret r /\
+    pow2 r /\ req <= r /\ 1024 <= r /\
+    (req <= 0 -> r = 65536) /\
+    (0 < req -> forall j, 0 <= j -> Z.max req 1024 <= 2^j -> r <= 2^j).
+Proof.
+  intros Hr Hle. unfold norm_cap, max_stream_buffer_cap, default_buffer_size.
+  destruct (Z.leb_spec req 0) as [H0|H0].
+  - exists 65536. split; [reflexivity|]. split; [exists 16; split; [lia|reflexivity]|].
+    repeat split; try lia.
+  - destruct (Z.leb_spec req 1024) as [H1|H1].
+    + exists 1024. split; [reflexivity|]. split; [exists 10; split; [lia|reflexivity]|].
+      repeat split; intros; lia.
+    + destruct (ceil_spec req Hr) as [_ Hc]. destruct (Hc Hle) as (r & -> & k & Hk & -> & Hge & Hmin).
+      exists (2^k). split; [reflexivity|]. split; [exists k; split; [assumption|reflexivity]|].
+      repeat split; intros; try lia. apply Hmin; lia.
+Qed.
+
+Theorem cap_panics_above req : int64 req -> 4611686018427387904 < req ->
+  norm_cap max_stream_buffer_cap req = Panic.
+Proof.
+  intros Hr Hgt. unfold norm_cap, default_buffer_size.
+  destruct (Z.leb_spec req 0); [lia|]. destruct (Z.leb_spec req 1024); [lia|].
+  destruct (ceil_spec req Hr) as [Hp _]. apply Hp. lia.
+Qed.
+
+(* the statement of the property without the representability bound is false:
+   witness 2^62+1 (replayed on the implementation in corpus/C16/cap_above_2pow62.trace) *)
+Theorem cap_normalised_refuted :
+  exists req, int64 req /\ norm_cap max_stream_buffer_cap req = Panic.
+Proof. exists 4611686018427387905. split; [unfold int64; lia|vm_compute; reflexivity]. Qed.
+
+Corollary cap_normalised_full_statement_false : ~ cap_normalised_full_statement.
+Proof.
+  intros H. destruct cap_normalised_refuted as (req & Hr & E).
+  destruct (H req Hr) as (r & E2 & _). congruence.
+Qed.
+
+Theorem chunk_normalised_partial chunk et : int64 chunk -> chunk <= 4611686018427387904 ->
+  (0 < chunk -> exists r, norm_chunk chunk et = Ret (r, true) /\ pow2 r /\ chunk <= r /\
+                          forall j, 0 <= j -> Z.max chunk 2 <= 2^j -> r <= 2^j) /\
+  (chunk <= 0 -> et = true -> norm_chunk chunk et = Ret (1048576, true)) /\
+  (chunk <= 0 -> et = false -> norm_chunk chunk et = Ret (chunk, false)).
+Proof.
+  intros Hr Hle. unfold norm_chunk, default_et_chunk. repeat split.
+  - intros H0. destruct (Z.gtb_spec chunk 0); [|lia].
+    destruct (ceil_spec chunk Hr) as [_ Hc]. destruct (Hc Hle) as (r & -> & k & Hk & -> & Hge & Hmin).
+    cbn [obind]. exists (2^k). split; [reflexivity|]. split; [exists k; split; [assumption|reflexivity]|].
+    split; [lia|]. intros j Hj Hm. apply Hmin; assumption.
+  - intros H0 ->. destruct (Z.gtb_spec chunk 0); [lia|]. reflexivity.
+  - intros H0 ->. destruct (Z.gtb_spec chunk 0); [lia|]. reflexivity.
+Qed.
+
+Theorem chunk_panics_above chunk et : int64 chunk -> 4611686018427387904 < chunk ->
+  norm_chunk chunk et = Panic.
+Proof.
+  intros Hr Hgt. unfold norm_chunk. destruct (Z.gtb_spec chunk 0); [|lia].
+  destruct (ceil_spec chunk Hr) as [Hp _]. rewrite Hp by lia. reflexivity.
+Qed.
+
+Theorem loops_clamped numcpu multicore n : 1 <= numcpu ->
+  let r := determine_event_loops numcpu multicore n in
+  1 <= r <= 256 /\
+  (0 < n -> r = Z.min n 256) /\
+  (n <= 0 -> multicore = true -> r = Z.min numcpu 256) /\
+  (n <= 0 -> multicore = false -> r = 1).
+Proof.
+  intros Hc. unfold determine_event_loops, event_loop_index_max. cbv zeta.
+  destruct multicore; destruct (Z.gtb_spec n 0);
+    repeat match goal with |- context [?a >? ?b] => destruct (Z.gtb_spec a b) end;
+    repeat split; intros; try lia; try discriminate.
+Qed.
+
+(* the whole normalisation in source order *)
+Theorem normalise_ok rbc wbc chunk et :
+  int64 rbc -> int64 wbc -> int64 chunk ->
+  rbc <= 4611686018427387904 -> wbc <= 4611686018427387904 -> chunk <= 4611686018427387904 ->
+  exists r w c e, normalise max_stream_buffer_cap rbc wbc chunk et = Ret (r, w, c, e) /\
+    norm_cap max_stream_buffer_cap rbc = Ret r /\
+    norm_cap max_stream_buffer_cap wbc = Ret w /\
+    norm_chunk chunk et = Ret (c, e).
+Proof.
+  intros H1 H2 H3 H4 H5 H6. unfold normalise.
+  destruct (cap_normalised_partial rbc H1 H4) as (r & Er & _).
+  destruct (cap_normalised_partial wbc H2 H5) as (w & Ew & _).
+  destruct (chunk_normalised_partial chunk et H3 H6) as (Hc1 & Hc2 & Hc3).
+  assert (Hc : exists c e, norm_chunk chunk et = Ret (c, e)).
+  { destruct (Z_lt_le_dec 0 chunk) as [Hp|Hp].
+    - destruct (Hc1 Hp) as (c & E & _). eauto.
+    - destruct et; [rewrite (Hc2 Hp eq_refl)|rewrite (Hc3 Hp eq_refl)]; eauto. }
+  destruct Hc as (c & e & Ec). exists r, w, c, e. rewrite Ec, Er, Ew. cbn. repeat split; reflexivity.
+Qed.
+
+(* ------------------------------------------------------------------ *)
+(* path.Join(host, path) = path.Clean(host ++ path): the extra '/' that Join
+   inserts in front of a rooted path is an empty path element *)
+
+Lemma clean_go_double_slash rooted : forall a r in_elem st,
+  clean_go rooted in_elem (a ++ 47 :: 47 :: r) st = clean_go rooted in_elem (a ++ 47 :: r) st.
+Proof.
+  assert (G : forall n a, (List.length a <= n)%nat -> forall r in_elem st,
+    clean_go rooted in_elem (a ++ 47 :: 47 :: r) st = clean_go rooted in_elem (a ++ 47 :: r) st).
+  { induction n as [|n IH]; intros a Hl r in_elem st.
+    - destruct a; [|cbn in Hl; lia]. cbn [app clean_go]. change (47 =? 47) with true. cbn iota.
+      destruct in_elem; cbn [clean_go]; change (47 =? 47) with true; reflexivity.
+    - destruct a as [|c a']; [apply (IH [] ltac:(cbn; lia))|].
+      cbn [List.length] in Hl. assert (Hl' : (List.length a' <= n)%nat) by lia.
+      cbn [app clean_go]. destruct in_elem.
+      + destruct (c =? 47); apply IH; assumption.
+      + destruct (c =? 47); [apply IH; assumption|].
+        (* the two look-ahead tests read the same bytes *)
+        destruct a' as [|x a''].
+        * cbn [app]. change (47 =? 47) with true. change (47 =? 46) with false.
+          rewrite !andb_false_r. rewrite !andb_true_r.
+          assert (E : match r with [] => 47 =? 46 | e :: _ => false && (e =? 47) end = false)
+            by (destruct r; reflexivity).
+          cbn [andb] in *.
+          destruct (c =? 46).
+          -- apply (IH [] ltac:(cbn; lia)).
+          -- destruct r; cbn [andb]; apply (IH [] ltac:(cbn; lia)).
+        * cbn [app].
+          match goal with |- (if ?b then _ else _) = _ => destruct b end; [apply (IH (x :: a'')); assumption|].
+          assert (E : match a'' ++ 47 :: 47 :: r with [] => x =? 46 | e :: _ => (x =? 46) && (e =? 47) end =
+                      match a'' ++ 47 :: r with [] => x =? 46 | e :: _ => (x =? 46) && (e =? 47) end)
+            by (destruct a''; reflexivity).
+          rewrite E.
+          assert (Hl2 : (List.length a'' <= n)%nat) by (cbn in Hl'; lia).
+          match goal with |- (if ?b then _ else _) = _ => destruct b end.
+          -- destruct (c_w st >? c_dotdot st).
+             ++ destruct (backtrack (c_out st) (c_w st) (c_dotdot st)). apply IH; assumption.
+             ++ destruct (negb rooted); apply IH; assumption.
+          -- apply (IH (x :: a'')); assumption. }
+  intros a. apply (G (List.length a)). lia.
+Qed.
+
+Lemma path_join_clean h p : ~ In 47 h -> (p = [] \/ has_prefix1 47 p = true) ->
+  h ++ p <> [] -> path_join h p = path_clean (h ++ p).
+Proof.
+  intros Hh Hp Hne. unfold path_join.
+  destruct h as [|c h'], p as [|d p']; try reflexivity.
+  - exfalso. apply Hne. reflexivity.
+  - rewrite app_nil_r. reflexivity.
+  - destruct Hp as [Hp|Hp]; [discriminate|]. cbn in Hp. apply Z.eqb_eq in Hp. subst d.
+    cbn [app]. unfold path_clean.
+    destruct (Z.eqb_spec c 47) as [->|Hc]; [exfalso; apply Hh; left; reflexivity|].
+    change (c :: h' ++ 47 :: 47 :: p') with ((c :: h') ++ 47 :: 47 :: p').
+    change (c :: h' ++ 47 :: p') with ((c :: h') ++ 47 :: p').
+    rewrite clean_go_double_slash. reflexivity.
+Qed.
+
+Lemma host_ok0_no_slash h : host_ok0 h = true -> ~ In 47 h.
+Proof.
+  unfold host_ok0. intros H. apply andb_true_iff in H. destruct H as [H _].
+  intros Hin. rewrite forallb_forall in H. apply H in Hin. apply host_byte_ok_facts in Hin. lia.
+Qed.
+
+Theorem parse_unix_clean_concat s h p :
+  lower s = s_unix -> host_ok0 h = true -> path_ok p = true -> h ++ p <> [] ->
+  parse_proto_addr (s ++ [58; 47; 47] ++ h ++ p) = POk s_unix (path_clean (h ++ p)).
+Proof.
+  intros Hs Hh Hp Hne. rewrite parse_unix_clean by assumption.
+  destruct (is_nil h && is_nil p) eqn:E.
+  - apply andb_true_iff in E. destruct E as [E1 E2]. apply is_nil_true in E1, E2. subst. exfalso. apply Hne. reflexivity.
+  - f_equal. apply path_join_clean; [apply host_ok0_no_slash; assumption| |assumption].
+    unfold path_ok in Hp. apply andb_true_iff in Hp. destruct Hp as [Hp _].
+    apply orb_true_iff in Hp. destruct Hp as [Hp|Hp]; [left; apply is_nil_true; assumption|right; assumption].
 Qed.
